@@ -154,13 +154,14 @@ fn outcome_json(out: &mut String, o: &Outcome, with_after: bool) {
 
 pub struct Session {
     used: Vec<Option<Matcher>>, // per (ic,nz,paths,pp)
+    reconf: Matcher,            // one matcher for everything, reconfigured through its public field
     pub calls: u64,
     pub panics: u64,
 }
 
 impl Session {
     pub fn new() -> Self {
-        Session { used: (0..16).map(|_| None).collect(), calls: 0, panics: 0 }
+        Session { used: (0..16).map(|_| None).collect(), reconf: Matcher::default(), calls: 0, panics: 0 }
     }
 
     /// Executes one input and returns its ndjson record.
@@ -207,8 +208,23 @@ impl Session {
                     let mut outs = Vec::with_capacity(12);
                     for f in 0..12 {
                         let mut fresh = Matcher::new(config.clone());
-                        let o = call(&mut fresh, f, h.get(), n.get(), pre);
+                        let o_fresh = call(&mut fresh, f, h.get(), n.get(), pre);
                         self.calls += 1;
+                        // one long-lived matcher serves every configuration: its public `config` field is assigned
+                        // before each call.  In every other record ITS results are the ones judged.
+                        self.reconf.config = config.clone();
+                        let o_reconf = call(&mut self.reconf, f, h.get(), n.get(), pre);
+                        self.calls += 1;
+                        let o = if id % 2 == 1 { o_reconf.clone() } else { o_fresh.clone() };
+                        let other = if id % 2 == 1 { o_fresh } else { o_reconf };
+                        if other != o {
+                            if !hist.is_empty() {
+                                hist.push(',');
+                            }
+                            let _ = write!(hist, "{{\"b\":{},\"f\":{},\"o\":", blocks.len() + 1, f + 1);
+                            outcome_json(&mut hist, &other, f % 2 == 0);
+                            hist.push('}');
+                        }
                         if o.s == -2 {
                             self.panics += 1;
                         }
